@@ -10,7 +10,7 @@
 """
 import json, os, random
 from vlib import sut, tlc, tracecheck, runner
-from checks import decmatrix
+from checks import decmatrix, c07_feat
 
 SPEC = os.path.join(sut.VERIF, "specs", "pipe")
 CMN = "41.00,-5.29,-0.12,5.09,2.48,-4.07,-1.37,-1.78,-5.08,-2.05,-6.45,-1.42,1.17"
@@ -178,9 +178,13 @@ def run(ctx):
     quick = ctx.tier == "quick"
     rng = random.Random(ctx.seed * 49979687 + 7)
     drv = decmatrix.build_driver()
+    if ctx.replay and open(ctx.replay).readline().startswith("#feat"):
+        c07_feat.replay(ctx, ctx.replay)
+        return
     if ctx.replay:
         cases = [("replay", [l for l in open(ctx.replay).read().split("\n") if l])]
     else:
+        c07_feat.run_stage(ctx)
         model_check(ctx, quick)
         n = 40 if quick else 500
         cases = [make_execution(rng, ctx, i, 3 if quick else 4) for i in range(n)]
